@@ -12,6 +12,7 @@ def h_interleave(ctx, mods, shape):
     if shape.get('device_first') is not None:
         pick = lambda ready: 0          # always the oldest ready stream first (its packets pile up in the store of the other reader)
     st = Std(ctx, maxdata=4096, monitor=mon, pick=pick, sym_rid=shape.get('sym_rid', True))
+    st.dev.flow_control = not shape.get('no_flow_control')
     w = World(ctx, mods, st.dev, impl=shape['impl'], default_timeout=1)
     o = w.try_call('connect')
     if not o.ok:
@@ -60,6 +61,7 @@ def h_interleave(ctx, mods, shape):
             ms = mon.streams_by_dest(b'shell:' + c['cmd'].encode() + b'\0')
             if ms is not None:
                 c['lid'] = ms.lid
+            if ms is not None and shape.get('judge_okays', True):
                 ctx.check(ms.host_okays == len(c['got']), 'protocol: each device WRTE delivered to the caller has been acknowledged with exactly one OKAY',
                           detail='stream %s: %d OKAYs after %d deliveries' % (c['cmd'], ms.host_okays, len(c['got'])))
         except StopIteration:
